@@ -953,12 +953,56 @@ func knownNonNilValue(v ssa.Value) bool {
 	case *ssa.ChangeType:
 		return knownNonNilValue(v.X)
 	case *ssa.Call:
+		if ctxErrAfterDone(v) {
+			return true
+		}
 		// errors.New / fmt.Errorf never return nil
 		if f := v.Call.StaticCallee(); f != nil && f.Pkg != nil {
 			switch f.Pkg.Pkg.Path() + "." + f.Name() {
 			case "errors.New", "fmt.Errorf":
 				return true
 			}
+		}
+	}
+	return false
+}
+
+// ctxErrAfterDone: v is ctx.Err() evaluated on the arm `case <-ctx.Done():` of a select on the same context — non-nil by
+// the contract of context.Context (Err returns a non-nil error once Done is closed).
+func ctxErrAfterDone(v *ssa.Call) bool {
+	if !v.Call.IsInvoke() || v.Call.Method.Name() != "Err" || v.Block() == nil {
+		return false
+	}
+	ctx := v.Call.Value
+	for x := v.Block(); x != nil; x = x.Idom() {
+		d := x.Idom()
+		if d == nil || len(x.Preds) != 1 || x.Preds[0] != d || len(d.Instrs) == 0 {
+			continue
+		}
+		ifi, ok := d.Instrs[len(d.Instrs)-1].(*ssa.If)
+		if !ok || d.Succs[0] != x || d.Succs[0] == d.Succs[1] {
+			continue
+		}
+		bo, ok := ifi.Cond.(*ssa.BinOp)
+		if !ok || bo.Op != token.EQL {
+			continue
+		}
+		ex, ok := bo.X.(*ssa.Extract)
+		if !ok || ex.Index != 0 {
+			continue
+		}
+		sel, ok := ex.Tuple.(*ssa.Select)
+		kc, ok2 := bo.Y.(*ssa.Const)
+		if !ok || !ok2 || kc.Value == nil {
+			continue
+		}
+		k, exact := constant.Int64Val(kc.Value)
+		if !exact || int(k) >= len(sel.States) {
+			continue
+		}
+		st := sel.States[k]
+		if dc, ok := st.Chan.(*ssa.Call); ok && st.Dir == types.RecvOnly && dc.Call.IsInvoke() && dc.Call.Method.Name() == "Done" && dc.Call.Value == ctx {
+			return true
 		}
 	}
 	return false
